@@ -9,11 +9,16 @@ import (
 )
 
 type Gen struct {
-	Funcs    bool // allow a few built-in calls
-	Arith    bool // allow arithmetic
-	Lets     bool // allow let expressions
-	NoValues bool // avoid object enumeration (results would be order-dependent)
-	vars     []string
+	Funcs     bool // allow a few built-in calls
+	Arith     bool // allow arithmetic
+	Lets      bool // allow let expressions
+	NoValues  bool // avoid object enumeration (results would be order-dependent)
+	NoRoot    bool // never mention the root node
+	letBias   bool // generate let expressions often
+	enumFuncs bool // keys / values / items / group_by / merge
+	freeVars  bool // sometimes reference variables that are not bound
+	mutFuncs  bool // functions that build or reorder arrays: sort, sort_by, reverse, max_by, zip, literals
+	vars      []string
 }
 
 var fieldNames = []string{"a", "b", "c", "k", "a", "b"}
@@ -53,10 +58,12 @@ func (g *Gen) atom(d int) *R {
 		return g.smallLit()
 	case n == 14:
 		return raw(pick([]string{"a", "", "b c", "it's", `\x`}))
-	case n == 15:
+	case n == 15 && !g.NoRoot:
 		return &R{K: KRoot}
 	case n == 16 && len(g.vars) > 0:
 		return vr(pick(g.vars))
+	case n == 16 && g.freeVars && rng.Intn(4) == 0:
+		return vr("$free")
 	case n == 17 && d > 0:
 		es := []*R{}
 		for i := 0; i < 1+rng.Intn(3); i++ {
@@ -88,6 +95,36 @@ func dedupKV(kes []KV) []KV {
 }
 
 func (g *Gen) call(d int) *R {
+	if g.enumFuncs && rng.Intn(2) == 0 {
+		switch rng.Intn(5) {
+		case 0:
+			return call("keys", av(g.chain(d-1)))
+		case 1:
+			return call("values", av(g.chain(d-1)))
+		case 2:
+			return call("items", av(g.chain(d-1)))
+		case 3:
+			return call("group_by", av(g.chain(d-1)), ar(call("type", av(cur()))))
+		}
+		return call("merge", av(g.chain(d-1)), av(g.chain(d-1)))
+	}
+	if g.mutFuncs && rng.Intn(2) == 0 {
+		switch rng.Intn(7) {
+		case 0:
+			return call("sort", av(g.chain(d-1)))
+		case 1:
+			return call("sort_by", av(g.chain(d-1)), ar(pick([]*R{cur(), fld("a"), fld("b")})))
+		case 2:
+			return call("reverse", av(g.chain(d-1)))
+		case 3:
+			return call("zip", av(g.chain(d-1)), av(g.chain(d-1)))
+		case 4:
+			return call("to_array", av(g.chain(d-1)))
+		case 5:
+			return pipe(litJ(`[3,1,2,[0]]`), pick([]*R{call("sort", av(proj(PSlice, cur(), cur()))), call("reverse", av(cur())), proj(PFlatten, cur(), cur())}))
+		}
+		return call("max_by", av(g.chain(d-1)), ar(pick([]*R{cur(), fld("a")})))
+	}
 	switch rng.Intn(10) {
 	case 0:
 		return call("length", av(g.expr(d-1)))
@@ -214,6 +251,9 @@ func (g *Gen) expr(d int) *R {
 		return g.chain(0)
 	}
 	n := rng.Intn(24)
+	if g.letBias && rng.Intn(4) == 0 {
+		return g.let(d)
+	}
 	switch {
 	case n < 10:
 		return g.chain(d)
